@@ -46,6 +46,7 @@ Inductive expr :=
 | EWriteByte (e : expr)                (* fwrite(&x, 1, 1, f): 1 and the byte appended, or 0 when the stream refuses it *)
 | EReadInt32 (x : string)              (* fread(p, sizeof(int), 1, f), p an int*: the cell x := the next four bytes, little-endian (the x86 host); 1, or 0 with the rest of the stream consumed *)
 | EWriteInt32 (e : expr)               (* fwrite(&v, sizeof(int), 1, f): the four bytes of v, little-endian; 1, or 0 with as many bytes as the stream still took *)
+| ESeekCur (e : expr)                  (* fseek(f, e, SEEK_CUR) with e >= 0 on a regular file: the position moves on (also beyond the end), 0 *)
 | EPtrAdd (p e : expr)                 (* p + e on a char pointer *)
 | EPostDec (x : string)
 | EPreDec (x : string).
@@ -335,6 +336,12 @@ Fixpoint eval (e : expr) (s : state) : option (val * state) :=
           | Some s2 => Some (VInt 0, s2) | None => None end
       | _ => None
       end
+    | _ => None
+    end
+  | ESeekCur a =>
+    match eval a s with
+    | Some (VInt k, s1) =>
+      if 0 <=? k then Some (VInt 0, {| vars := vars s1; inb := skipn (Z.to_nat k) (inb s1); outb := outb s1 |}) else None
     | _ => None
     end
   | EPtrAdd p a =>
